@@ -60,9 +60,13 @@ def find_impl(toks, header):
 
 def split_top(toks, sep=","):
     """split a token list at top-level separators (ignoring nested brackets and generics in < >)"""
-    parts, cur, depth, ang = [], [], 0, 0
+    parts, cur, depth, ang, bar = [], [], 0, 0, False
     for t in toks:
         s = t[1]
+        if s == "|" and depth == 0 and (bar or not cur):      # closure parameter list `|a, &b|` at the start of a part
+            bar = not bar; cur.append(t); continue
+        if bar:
+            cur.append(t); continue
         if s in "([{": depth += 1
         elif s in ")]}": depth -= 1
         elif s == "<": ang += 1
@@ -75,6 +79,7 @@ def split_top(toks, sep=","):
     return parts
 
 SELF = {}
+PUB = {}
 def functions(toks, lo, hi):
     """all `fn name(params) [-> ret] { body }` directly inside toks[lo:hi] -> dict name -> (params, ret, body tokens)"""
     res = {}
@@ -85,6 +90,7 @@ def functions(toks, lo, hi):
         if s == "{": i = match_brace(toks, i) + 1; continue
         if s == "fn" and toks[i + 1][0] == "id":
             name = toks[i + 1][1]
+            PUB[id(res), name] = i > 0 and toks[i - 1][1] == "pub"
             j = i + 2
             if toks[j][1] == "<":                       # generics
                 while toks[j][1] != "(": j += 1
@@ -355,6 +361,8 @@ class Ev:
             path, args = e[1], [self.ev(a, env) for a in e[2]]
             if path == ["Ok"]: return args[0]
             if path == ["Box", "new"]: return args[0]
+            if path[0] == "Self" and len(path) == 2 and path[1] in self.gate_fns and self.gate_fns[path[1]][2] is not None:
+                path = ["Gate", path[1]]                 # a helper of the same impl, inlined
             if path[0] == "Gate" and len(path) == 2:
                 if path[1] == "Operator":
                     return ("gate", args[0], self.aslist(args[1]), self.aslist(args[2]))
@@ -388,6 +396,22 @@ class Ev:
                 else: raise Untranslatable("map argument")
                 if g[0] != "gate": raise Untranslatable("map does not build a gate")
                 return ("gates", [("each", lst, var, g)])
+            if name in ("try_fold", "fold"):
+                # xs.iter().try_fold(init, |acc, &x| body)  ==  the `for` loop threading acc through body, in list order
+                lst, init, f = recv, args[0], args[1]
+                if lst[0] not in ("slist", "llit"): raise Untranslatable("%s over a non-list" % name)
+                if init[0] not in ("state", "builder") or f[0] != "closure" or len(f[1]) != 2:
+                    raise Untranslatable("%s with an unsupported accumulator or closure" % name)
+                _, ps, body, cenv = f
+                var = ("sym", "%" + ps[1])
+                env2 = dict(cenv); env2[ps[0]] = (init[0], []); env2[ps[1]] = var
+                out = self.block(body, env2)
+                if out is None or out[0] != init[0]: raise Untranslatable("%s body does not return the accumulator" % name)
+                items = list(init[1])
+                for it in out[1]:
+                    if it[0] != "one": raise Untranslatable("nested loop")
+                    items.append(("each", lst, var, it[1]))
+                return (init[0], items)
             if name in ("add_gate", "add_gates") and recv[0] == "builder":
                 g = args[0]
                 items = [("one", g)] if g[0] == "gate" else (g[1] if g[0] == "gates" else None)
@@ -489,6 +513,7 @@ def translate(repo):
         if not ret.startswith("Result<Self") and not ret.startswith("Result<State"): continue
         cp = classify_params(params)
         if cp is None or name in SKIP_STATE or not any(k in ("q", "ql") for _, k in cp) or not SELF.get((id(state_fns), name)): continue
+        if not PUB.get((id(state_fns), name)): continue     # private helpers are not surfaces (they are inlined where called)
         try:
             v = ev.run_fn(params, P(body).block(), [symval(n, k) for n, k in cp], ("state", []))
             entries.append(dict(surface="state", name=name, params=cp, items=norm(v, "state"), types=[t for _, t in params], ret=ret))
@@ -512,7 +537,7 @@ def translate(repo):
     for name, (params, ret, body) in gate_fns.items():
         if body is None or ret not in ("Self", "Vec<Self>", "Result<Self,Error>", "Result<Vec<Self>,Error>"): continue
         cp = classify_params(params)
-        if cp is None or not cp: continue
+        if cp is None or not cp or not PUB.get((id(gate_fns), name)): continue
         try:
             v = ev.run_fn(params, P(body).block(), [symval(n, k) for n, k in cp], None)
             entries.append(dict(surface="gate", name=name, params=cp, items=norm(v, "gate"), types=[t for _, t in params], ret=ret))
@@ -521,7 +546,7 @@ def translate(repo):
     for name, (params, ret, body) in builder_fns.items():
         if ret not in ("&mutSelf", "Result<&mutSelf,Error>"): continue
         cp = classify_params(params)
-        if cp is None or not cp: continue
+        if cp is None or not cp or not PUB.get((id(builder_fns), name)): continue
         try:
             v = ev.run_fn(params, P(body).block(), [symval(n, k) for n, k in cp], ("builder", []))
             entries.append(dict(surface="builder", name=name, params=cp, items=norm(v, "builder"), fallible=ret.startswith("Result"), types=[t for _, t in params], ret=ret))
